@@ -75,7 +75,7 @@ def unify(a, b):
 
 # ------------------------------------------------------------------------------------------------ function table
 class Fn:
-    def __init__(self, name, coq, params, ret=None, cls=None, state=None, ret_union=False, fuel=False, pure=False, mutates=(), abstract=False, returns_state=(), locals_=None):
+    def __init__(self, name, coq, params, ret=None, cls=None, state=None, ret_union=False, fuel=False, pure=False, mutates=(), abstract=False, returns_state=(), locals_=None, es_mut=()):
         self.name, self.coq, self.params, self.ret, self.cls = name, coq, params, ret, cls
         self.state = state or []          # [(key, coqname, type)] read from self.epistemic_state
         self.ret_union = ret_union        # `return False, x` / `return v, x`  ->  (PFalse, x) / (PVal v, x)
@@ -86,6 +86,7 @@ class Fn:
         self.uses = []                    # abstract methods this function calls
         self.locals_ = dict(locals_ or {})       # declared types of local variables (Optional[int] cannot be inferred)
         self.returns_state = list(returns_state)   # parameters (solver objects) whose final state is returned with the result
+        self.es_mut = list(es_mut)        # [(key, type)]: entries of self.epistemic_state the function writes; passed in and returned
 
 
 class Ctx:
@@ -1646,6 +1647,23 @@ def translate_function(tree, fn, table, consts):
         actual = actual[1:]
     if declared != actual:
         raise Unsupported("%s: parameters are %r, the translator was told %r" % (fn.name, actual, declared))
+    if fn.es_mut:
+        # self.epistemic_state["k"] for a written entry k becomes a variable es__k: a parameter whose final value is returned
+        keys = {k for k, _ in fn.es_mut}
+
+        class EsVar(ast.NodeTransformer):
+            def visit_Subscript(self, x):
+                self.generic_visit(x)
+                if (isinstance(x.value, ast.Attribute) and isinstance(x.value.value, ast.Name) and x.value.value.id == "self"
+                        and x.value.attr == "epistemic_state" and isinstance(x.slice, ast.Constant) and x.slice.value in keys):
+                    return ast.copy_location(ast.Name(id="es__" + x.slice.value, ctx=ast.Load()), x)
+                return x
+        node = EsVar().visit(node)
+        ast.fix_missing_locations(node)
+        a = node.args
+        if not any(p[0] == "es__" + fn.es_mut[0][0] for p in fn.params):
+            fn.params = list(fn.params) + [("es__" + k, t) for k, t in fn.es_mut]
+            fn.returns_state = list(fn.returns_state) + ["es__" + k for k, _ in fn.es_mut]
     # defaults are part of the meaning of a call that omits the argument
     defaults = {}
     for arg, d in zip(a.args[len(a.args) - len(a.defaults):], a.defaults):
@@ -1845,6 +1863,9 @@ TARGETS = [
         Fn("compile_and_encode_query", "py_CInference_compile_and_encode_query", [("query", "cond"), ("deadline", "none")], cls="CInference",
            state=[("nf_cnf_dict", "es_nf_cnf_dict", ("dict", SCNF))],
            locals_={"vMin": PART_KEY, "fMin": PART_KEY, "xMins": PART_KEY}),
+        Fn("compile_constraint", "py_CInference_compile_constraint", [("deadline", "none")], cls="CInference",
+           state=[("nf_cnf_dict", "es_nf_cnf_dict", ("dict", SCNF)), ("v_cnf_dict", "es_v_cnf_dict", ("dict", SCNF)), ("f_cnf_dict", "es_f_cnf_dict", ("dict", SCNF))],
+           es_mut=[("vMin", ("dict", PART_KEY)), ("fMin", ("dict", PART_KEY))], locals_={"xMins": PART_KEY}),
         Fn("@isolve", "m_isolve", [("constraints", ("list", "icon"))], ret="bool", abstract=True),
         Fn("_inference", "py_CInference_inference", [("query", "cond"), ("weakly", "bool"), ("deadline", "none")], cls="CInference",
            state=[("belief_base", "es_belief_base", "bb"), ("smt_solver", "es_smt_solver", "str"), ("@base_csp", "at_base_csp", ("list", "icon")),
